@@ -127,8 +127,20 @@ def check(ctx):
                     pred_label="edge `count >= num_threads`")
         ctx.guarded(BW, Call(re.escape(CV) + "::wait_while"), less, "follower-waits-when-not-full", "an arrival that does not complete the generation waits",
                     pred_label="edge `count < num_threads`")
-        lead = Agg("may::sync::barrier::BarrierWaitResult", "BarrierWaitResult", where=lambda g, pt, n: const_int(g, n["rv"]["ops"][0]) == 1, label="BarrierWaitResult(true)")
-        ctx.guarded(BW, lead, ge, "one-leader", "is_leader() is true only for the arrival that completed the generation", pred_label="edge `count >= num_threads`")
+        # is_leader: the constant `true` only behind the full edge - or the result carries the full test itself (`BarrierWaitResult(count >= n)`)
+        def is_full_test(o):
+            o = simplify(o)
+            if o[0] != "bin": return False
+            a0, b0 = simplify(o[2]), simplify(o[3])
+            nt = lambda x: all_fields(x)[-1:] == [B + ".num_threads"]
+            return (o[1] == "Ge" and count_read(a0) and nt(b0)) or (o[1] == "Le" and count_read(b0) and nt(a0))
+        results = [(pt, f.node(pt)) for pt in f.points() if not f.is_term(pt) and f.node(pt).get("s") == "=" and f.node(pt)["rv"]["r"] == "agg" and
+                   norm(f.node(pt)["rv"].get("adt") or "") == "may::sync::barrier::BarrierWaitResult"]
+        if results and all(is_full_test(trace_operand(f, n["rv"]["ops"][0])) for _, n in results):
+            ctx.ob("R-EXIT", BW, "one-leader", True, "is_leader() is the very test `count >= num_threads` of the arrival", f.where(results[0][0]))
+        else:
+            lead = Agg("may::sync::barrier::BarrierWaitResult", "BarrierWaitResult", where=lambda g, pt, n: const_int(g, n["rv"]["ops"][0]) == 1, label="BarrierWaitResult(true)")
+            ctx.guarded(BW, lead, ge, "one-leader", "is_leader() is true only for the arrival that completed the generation", pred_label="edge `count >= num_threads`")
         ctx.order(BW, Call(re.escape(MX) + "::lock", transitive=False), Write(BS + ".count", label="count update"), "count-under-lock", "the arrival count is updated under the mutex")
         # the follower's predicate compares against the generation read under the lock
         cl = [g for g in ctx.prog.closures_of(f)]
@@ -172,3 +184,4 @@ def check(ctx):
     wait_group_rules(ctx)
     ctx.import_rules("C10", r"^no-panicking-instant-arithmetic$")
     shared.drops_do_not_block_unmasked(ctx)
+    shared.handoff_not_recursive(ctx, "may::sync::condvar")
